@@ -105,7 +105,10 @@ func runC16(p *core.Program, r *core.Report) {
 		r.Borrow("R16.3", func() { checkNoSharedWrites(p, r, "R15", entries, 3) })
 		// … and that a class flag contributes exactly the characters of its class string,
 		// an exclusion removes exactly those (= C03 R3.1-R3.3 re-run on the alphabet builder)
-		r.Borrow("R16.1", func() { checkAlphabetBuilder(p, r) })
+		r.Borrow("R16.1", func() {
+			checkAlphabetBuilder(p, r)
+			checkAlphabetProvenance(p, r, "R2.1")
+		})
 		// the shipped lists are handed to NewWordList by every user (the CLI included): they stay
 		// identical to their data files only if the constructor neither writes nor keeps its argument (= C10 R10.1)
 		r.Borrow("R16.5", func() { checkCallerSliceUntouched(p, r) })
